@@ -3,16 +3,11 @@ import LokiModel.C40.Model
 # C40 — witnesses about the unchanged code (non-gating)
 
 No violation of idempotence was found.  Recorded here: inputs on which the *first* application of dead-code removal raises
-(`RemoveDeadCodeTransformer.visit_Conditional` hands `o.has_elseif and else_body and isinstance(else_body[0], Conditional)`
-to the `Conditional` constructor), as the model predicts; the once-vs-twice statement is vacuous there.
+(`RemoveDeadCodeTransformer.visit_Conditional` sets `has_elseif` when the pruned ELSE part merely *starts* with a Conditional;
+the `Conditional` constructor asserts that it then has exactly one statement), as the model predicts; the once-vs-twice statement is vacuous there.
 -/
 namespace LokiModel.C40
 open LokiModel.Fir
-
-/-- `if (p) then; exit; else if (.false.) then; cycle; end if`: the pruned ELSE part is empty, `has_elseif` becomes `()` -/
-theorem dead_elseif_empty_raises :
-    crashS [.ifte (.not (.var "p")) [.exit] [.ifte (.lit (.bool false)) [.cycle] []]] = true := by
-  simp [crashS, crashStmt, elseifCrash, isSingleIf, deadS, deadStmt, isTrueC, isFalseC]
 
 /-- `… else if (.true.) then; if (q) exit; cycle; end if`: the pruned ELSE part starts with an IF and has two statements -/
 theorem dead_elseif_long_raises :
